@@ -255,7 +255,7 @@ class Sky130Walker(h.HierarchyWalker):
             modparams = Sky130GenResParams(w=w, l=l)
 
         elif mod.paramtype == Sky130PrecResParams:
-            l = default_prec_res_L[mod.name]
+            l = self.scale_param(params.l, default_prec_res_L[mod.name])
 
             modparams = Sky130PrecResParams(l=l)
 
